@@ -104,6 +104,24 @@ def impl_hist(case):
                 if ti < len(mf.tracks) and j < len(mf.tracks[ti]):
                     mf.tracks[ti][j].time = t
                 i += 4
+            elif k == 10:
+                ti, j, d = l[i + 1:i + 4]
+                if ti < len(mf.tracks) and j + 1 < len(mf.tracks[ti]):
+                    a_, b_ = mf.tracks[ti][j], mf.tracks[ti][j + 1]
+                    a_.time += d
+                    b_.time -= d
+                i += 4
+            elif k == 11:
+                ti, j = l[i + 1:i + 3]
+                if ti < len(mf.tracks) and j + 1 < len(mf.tracks[ti]):
+                    tr = mf.tracks[ti]
+                    tr[j], tr[j + 1] = tr[j + 1], tr[j]
+                i += 3
+            elif k == 12:
+                ti = l[i + 1]
+                if ti < len(mf.tracks):
+                    mf.tracks[ti].reverse()
+                i += 2
             elif k == 8:
                 ti, j, v = l[i + 1:i + 4]
                 if ti < len(mf.tracks) and j < len(mf.tracks[ti]):
@@ -135,7 +153,11 @@ def impl_hist(case):
                 if fail is None:
                     fresh = mido.MidiFile(type=1, ticks_per_beat=mf.ticks_per_beat, tracks=copy.deepcopy(mf.tracks))
                     fresh.type = mf.type
+                    before = [[(m.time, repr(m)) for m in tr] for tr in mf.tracks]
                     a, b = observe_all(mf), observe_all(fresh)
+                    if [[(m.time, repr(m)) for m in tr] for tr in mf.tracks] != before:
+                        fail = ('observation-mutates', 'after history %r, observing the file (merged_track / iteration / length / play / save) changed its tracks from %r'
+                                % (case[:60], str(before)[:200]))
                     for key in a:
                         if a[key] != b[key]:
                             fail = ('stale:' + key, 'after history %r the file answers %s = %r, a fresh file with the same contents %r'
@@ -181,10 +203,21 @@ def random_history(rng):
                 case += [5, ti_, rng.randrange(0, 3), rng.choice([0, 7, 100])]
         elif r < 0.74:
             case += [8, rng.randrange(nt), rng.randrange(0, 3), rng.randrange(128)]
+        elif r < 0.745:
+            pass
         elif r < 0.77:
             case += [6, rng.choice([0, 1, 1, 2])]
         elif r < 0.8:
             case += [7, rng.choice([96, 480])]
+        elif r < 0.86:
+            # edits that keep every track's length and total ticks: ticks moved between neighbours, neighbours swapped, a track reversed
+            q = rng.random()
+            if q < 0.5:
+                case += [10, rng.randrange(nt), rng.randrange(0, 3), rng.choice([1, 5, 96, -1, -96])]
+            elif q < 0.8:
+                case += [11, rng.randrange(nt), rng.randrange(0, 3)]
+            else:
+                case += [12, rng.randrange(nt)]
         else:
             case += [9]
     return case + [9]
@@ -195,7 +228,9 @@ def run(out):
     n = 1500 if out.tier == 'quick' else 150000
     cases = [[1, 480, 2, 3, 0, 0, 96, 0, 1, 9, 3, 0, 1, 96, 0, 2, 9],            # add_track, insert, observe, insert, observe
              [1, 480, 0, 1, 96, 0, 1, 9, 0, 1, 200, 0, 2, 9],                     # observe, tracks.append, observe
-             [1, 480, 0, 2, 96, 0, 1, 96, 0, 2, 9, 5, 0, 1, 500, 9, 4, 0, 0, 9]]  # observe, edit a time, observe, delete, observe
+             [1, 480, 0, 2, 96, 0, 1, 96, 0, 2, 9, 5, 0, 1, 500, 9, 4, 0, 0, 9],  # observe, edit a time, observe, delete, observe
+             [1, 480, 0, 2, 10, 0, 1, 100, 0, 2, 0, 2, 50, 0, 3, 60, 0, 4, 9, 10, 0, 0, 96, 9, 11, 1, 0, 9, 12, 0, 9],   # observe, move ticks, swap, reverse
+             [1, 480, 0, 3, 5, 0, 1, 100, 1, 2, 30, 0, 3, 9, 9]]                  # a mid-track end_of_track with a delta: observe twice
     cases += [random_history(rng) for _ in range(n)]
     for tag, rec in core.pmap(job, chunk_jobs(cases, 'history', COMP_HIST)):
         core.merge_into(out, rec, tag)
